@@ -784,7 +784,13 @@ def run_mode(repo, name, cfg):
             r = w.call(o, "update", give(w, p))
             if isinstance(r, tuple):
                 return "update: %r" % (r,)
-    if how == "declared0":
+    if how == "nodata":
+        # associated data only: update(); digest() with no encrypt() call at all
+        got_c = b""
+        got_t = w.call(o, "digest")
+        if not isinstance(got_t, bytes):
+            return "update(); digest() without any encrypt(): %r" % (got_t,)
+    elif how == "declared0":
         r = w.call(o, "encrypt", b"")
         if r != b"":
             return "encrypt(b'') with msg_len=0 declared: %r" % (r,)
@@ -843,7 +849,10 @@ def run_mode(repo, name, cfg):
                 if name == "siv" and not p:
                     continue
                 w.call(o, "update", give(w, p))
-        if how == "declared0":
+        if how == "nodata":
+            v = w.call(o, "verify", t2)
+            r = b"" if v is None else v
+        elif how == "declared0":
             r = w.call(o, "decrypt", b"")
             if r == b"":
                 v = w.call(o, "verify", t2)
@@ -911,6 +920,13 @@ def configs(name, thorough=False):
                     variants = [variants[(ml + hl) % len(variants)]] + ([variants[0]] if (ml, hl) in ((17, 21), (0, 0)) else [])
                 for nonce, tlen in variants:
                     out.append(dict(key=key, nonce=nonce, header=pat(hl, 0x30), msg=pat(ml, 0x90), tlen=tlen, how=how))
+    # associated data only, never a call of encrypt() / decrypt(): the tag of the empty message
+    # (SIV is left out: digest() without encrypt() authenticates the vector without the empty plaintext component, which
+    #  is not the tag of the empty message - observed, see DESIGN I.5)
+    for hl in (5, 16, 33) if name != "siv" else ():
+        key = pat(32 if name in ("siv", "chachapoly") else 16, 0x48 + hl)
+        nonce, tlen = {"eax": (pat(16, 1), 16), "siv": (pat(16, 1), 16), "ccm": (pat(11, 1), 16), "chachapoly": (pat(12, 1), 16), "ocb": (pat(15, 1), 16)}.get(name, (pat(12, 1), 16))
+        out.append(dict(key=key, nonce=nonce, header=pat(hl, 0x30), msg=b"", tlen=tlen, how="nodata"))
     if name != "ocb":
         # output= aliasing the input (a bytearray encrypted / decrypted in place): same bytes, same verdicts
         for ml, hl in ((1, 0), (16, 5), (33, 16), (47, 21)) if not thorough else ((1, 0), (15, 1), (16, 5), (17, 16), (33, 16), (47, 21), (64, 40)):
